@@ -6,6 +6,7 @@ RULE_TEXT = {
     "TS-3": "the implicit weak of a dead box is released after its moved-out contents were destroyed, and at most once per path",
     "TS-4": "an allocation is freed only on a path that released a weak reference and then observed weak == 0; no access or second free follows",
     "TS-5": "everything moved out of a box is destroyed (or returned) on every normal path; a dying object's value and table are both moved out before the implicit weak is released",
+    "TS-6": "a strong handle whose drop destroys the value is dropped only for a box whose value was initialised (a fresh allocation is held as Rc<MaybeUninit<T>> until written)",
     "TS-7": "the strong count is only raised on a box whose state excludes Zero and Uninit (the other branches abort)",
     "TS-8": "count getters return the counters; Weak getters return 0 for destroyed objects",
     "TS-9": "every handle construction is counted (increment on the same box, fresh allocation with counters 1, dangling sentinel, or consumption of another handle); Rc::drop lowers its own count once",
@@ -35,6 +36,7 @@ RULE_TEXT = {
     "API-1": "documented guard <=> outcome and net effects of try_unwrap, get_mut, make_mut, upgrade, downgrade, raw-pointer round trips, increment/decrement_strong_count, ptr_eq",
     "FWD-1": "comparison / hashing / formatting / borrowing impls forward to the same method on the value, operands in order, result unchanged, no side effects",
     "ITER-1": "loops over hash-ordered collections and the worklist leave only through exhaustion; closures of search adaptors are effect-free",
+    "ITER-2": "inside a loop over a hash-ordered collection, counters / link tables / contents are only written on the box named by the element being visited (or local accumulators)",
     "ITER-4": "addresses are never ordered (only ==, != and hashing)",
     "ITER-5": "no group-sized loop or linear scan is nested in a group-sized loop",
     "CG-1": "the crate's call graph is acyclic",
@@ -42,16 +44,16 @@ RULE_TEXT = {
 
 PROPS = {
     "C01": ["TS-1", "TS-2", "GATE-1", "GATE-4", "GATE-6", "GATE-7", "GATE-8", "GATE-10", "SYM-1", "SYM-2", "SYM-3"],
-    "C02": ["TS-1", "TS-3", "TS-4", "GATE-1", "GATE-10", "EFF-2", "UNW-1", "PROV-1", "SYM-3"],
+    "C02": ["TS-1", "TS-3", "TS-4", "GATE-1", "GATE-10", "EFF-2", "UNW-1", "PROV-1", "SYM-3", "TS-6"],
     "C03": ["GATE-5", "GATE-6", "GATE-8", "GATE-9", "GATE-10", "ITER-1", "EFF-4", "PROV-1", "TS-5", "SYM-1", "SYM-2", "SYM-3"],
     "C04": ["TS-3", "TS-4", "TS-5", "SYM-4"],
     "C05": ["TS-2", "TS-3", "TS-4", "TS-7", "TS-8", "GATE-5", "EFF-2", "API-1"],
     "C06": ["EFF-2", "EFF-3", "EFF-4", "TS-8", "TS-9", "PROV-1", "GATE-4", "GATE-6"],
-    "C07": ["FWD-1", "API-1", "TS-7", "TS-8", "TS-9", "GATE-3"],
+    "C07": ["FWD-1", "API-1", "TS-6", "TS-7", "TS-8", "TS-9", "GATE-3"],
     "C08": ["SYM-1", "SYM-2", "SYM-3", "SYM-4", "EFF-4"],
-    "C09": ["ITER-1", "ITER-4", "TS-2"],
+    "C09": ["ITER-1", "ITER-2", "ITER-4", "TS-2"],
     "C10": ["BRW-1", "BRW-2", "BRW-3", "TS-2", "TS-3", "SYM-3"],
-    "C11": ["UNW-1", "TS-2", "BRW-1"],
+    "C11": ["UNW-1", "TS-2", "TS-6", "BRW-1"],
     "C12": ["KILL-1", "EFF-2", "TS-1", "TS-9"],
     "C14": ["GATE-2", "GATE-3", "SYM-2", "SYM-4"],
     "C15": ["CG-1", "GATE-1", "GATE-9", "ITER-5"],
